@@ -20,6 +20,7 @@ Sidecar syntax (one file per source file, name <file>.contract):
   @inline-after <fnpath> /regex/ [count]  text (joined on one line) directly after the match
   @body-start <fnpath>              whole lines directly after the opening brace line of the fn
   @loop-body <fnpath> <kind>#<n>    whole lines directly after the opening brace line of the loop body
+  @loop-end <fnpath> <kind>#<n>     whole lines directly before the closing brace line of the loop body
 
 A content line may end with `//@ <obligation-id> [C01,C02]`: that line and the following lines of the
 block (until the next tag) belong to the named obligation.
@@ -157,7 +158,7 @@ def plan_insertions(src, blocks):
                     ins.append((e, 'inline', b))
                 else:
                     ins.append((a, 'inline', b))
-        elif d == 'loop-body':
+        elif d in ('loop-body', 'loop-end'):
             fnpath, spec = b.args.split()
             pos = src.find_loop(fnpath, spec)
             k, par = pos, 0
@@ -170,7 +171,11 @@ def plan_insertions(src, blocks):
                 elif ch == '{' and par == 0:
                     break
                 k += 1
-            ins.append((line_end(text, k), 'lines', b))
+            if d == 'loop-body':
+                ins.append((line_end(text, k), 'lines', b))
+            else:
+                from rustscan import match_brace
+                ins.append((line_start(text, match_brace(src.m, k)), 'lines', b))
         elif d == 'body-start':
             _, op, _ = src.find_fn(b.args.split()[0])
             ins.append((line_end(text, op), 'lines', b))
